@@ -32,6 +32,8 @@ pub enum Fault {
 	SnappyPayload { block: usize, off: usize, xor: u8 },
 	Byte { off: usize, xor: u8 },
 	Io { at_call: u64, kind: IoErrKind },
+	/// `n` consecutive source calls fail with `Interrupted`
+	IoBurst { at_call: u64, n: u64 },
 }
 
 #[derive(Clone, Debug, Serialize, Deserialize, PartialEq)]
@@ -182,6 +184,9 @@ fn enumerate_cases(file: &[u8], parsed: &Parsed, seed: u64, cap: usize, clean_ca
 				_ => IoErrKind::Interrupted,
 			};
 			cases.push(Case { fault: Fault::Io { at_call: i, kind }, reader: k.clone() });
+			if i % 4 == 1 {
+				cases.push(Case { fault: Fault::IoBurst { at_call: i, n: 2 + i % 3 }, reader: k.clone() });
+			}
 		}
 	}
 	cases
@@ -314,8 +319,8 @@ impl Prop for C17 {
 	}
 	fn budget(&self, tier: Tier) -> (u64, u64) {
 		match tier {
-			Tier::Quick => (1_500, 80),
-			Tier::Thorough => (60_000, 900),
+			Tier::Quick => (4_000, 90),
+			Tier::Thorough => (80_000, 1200),
 		}
 	}
 
@@ -461,6 +466,12 @@ impl Prop for C17 {
 					f[o] ^= if *xor == 0 { 1 } else { *xor };
 					(f, "byte", region_of(&parsed, o))
 				}
+				Fault::IoBurst { at_call, n } => {
+					for j in 0..*n {
+						faults.push(SourceFault { at_call: at_call + j, kind: IoErrKind::Interrupted });
+					}
+					(file.clone(), "io-interrupted-burst", "source-call")
+				}
 				Fault::Io { at_call, kind } => {
 					faults.push(SourceFault { at_call: *at_call, kind: *kind });
 					(
@@ -506,7 +517,7 @@ impl Prop for C17 {
 			out.sig(sig);
 			let what = format!("{:?} via {}", case.fault, case.reader.label());
 			// truncation, sync damage and I/O errors leave every count that is read genuine
-			let counts_genuine = matches!(case.fault, Fault::Truncate { .. } | Fault::Sync { .. } | Fault::Io { .. } | Fault::SnappyCrc { .. });
+			let counts_genuine = matches!(case.fault, Fault::Truncate { .. } | Fault::Sync { .. } | Fault::Io { .. } | Fault::IoBurst { .. } | Fault::SnappyCrc { .. });
 			if !universal(&r, &what, counts_genuine, &mut out) {
 				break;
 			}
@@ -599,7 +610,11 @@ impl Prop for C17 {
 						}
 					}
 				}
-				Fault::Io { kind, .. } => {
+				Fault::Io { .. } | Fault::IoBurst { .. } => {
+					let kind = &match &case.fault {
+						Fault::Io { kind, .. } => *kind,
+						_ => IoErrKind::Interrupted,
+					};
 					let fired = r.source.as_ref().map_or(0, |s| s.faults_fired) > 0;
 					if !fired {
 						continue;
